@@ -11,11 +11,12 @@ EXTENDS TraceLib, FiniteSets
 VARIABLES l
 
 \* the constant-level part of Delivery.tla (its variables are not used here)
-D == INSTANCE Delivery WITH mode <- "", dest <- "", input <- "", pc <- "", compiled <- "", target <- "", others <- "", stdout <- "", result <- ""
+D == INSTANCE Delivery WITH mode <- "", dest <- "", input <- "", pc <- "", compiled <- "", target <- "", others <- "", stdout <- "", result <- "", shape <- "", buffered <- FALSE, FlushBeforeReturn <- TRUE
 
 Deliver(e, i) ==
     LET c == IF e.compiled = "ok" THEN "ok" ELSE "err" IN
-    IF e.compiled = "panic" THEN Report(i, "SKIP", "compile_to_string panics on this input (C08)")
+    IF e.compiled = "unstaged" THEN Report(i, "SKIP", "the scene could not be set: " \o e.detail)
+    ELSE IF e.compiled = "panic" THEN Report(i, "SKIP", "compile_to_string panics on this input (C08)")
     ELSE IF (e.input = "good") # (e.compiled = "ok") THEN Report(i, "SKIP", "input class and compile_to_string disagree: " \o e.input \o " / " \o e.compiled)
     ELSE IF e.result \notin {"ok", "err"}
         THEN Report(i, "MISMATCH", "neither Ok nor Err / exit status 0 or 1, but " \o e.result \o ": " \o e.detail)
